@@ -1254,7 +1254,7 @@ class BasicCircleStatement(BasicRunCall):
                     expr_r,
                     expr_color
                     if expr_color is not None
-                    else BasicRunCall(
+                    else BasicFunctionCall(
                         "float", BasicExpressionList([BasicVar("display.hfore")])
                     ),
                     BasicLiteral(1.0),
@@ -1307,7 +1307,7 @@ class BasicEllipseStatement(BasicRunCall):
                     circle.expr_r,
                     circle.expr_color
                     if circle.expr_color is not None
-                    else BasicRunCall(
+                    else BasicFunctionCall(
                         "float", BasicExpressionList([BasicVar("display.hfore")])
                     ),
                     expr_ratio,
@@ -1347,7 +1347,7 @@ class BasicArcStatement(BasicRunCall):
                     ellipse.circle.expr_r,
                     ellipse.circle.expr_color
                     if ellipse.circle.expr_color is not None
-                    else BasicRunCall(
+                    else BasicFunctionCall(
                         "float", BasicExpressionList([BasicVar("display.hfore")])
                     ),
                     ellipse.expr_ratio,
